@@ -224,6 +224,22 @@ theorem evalCond_pre (pl : List Event) (c : Ctx) (cd : CondSpec) :
       simp only [Ctx.pre_err]
       cases (nodeCmp c cd.l cd.r cd.staticL cd.staticR cd.op).2.2.err <;> rfl
 
+theorem evalCondOK_pre (pl : List Event) (c : Ctx) (k : CondOKSpec) :
+    evalCondOK (c.pre pl) k = ((evalCondOK c k).1.pre pl, (evalCondOK c k).2) := by
+  unfold evalCondOK
+  cases applyCondOKFn k.cd.hlp with
+  | none => rfl
+  | some fn =>
+    simp only
+    rw [collectHlpArgs_pre]
+    simp only
+    split
+    · rfl
+    · split
+      · rfl
+      · rw [show condOKAssign ((collectHlpArgs c k.cd.hlpArg).2.pre pl) k (fn (collectHlpArgs c k.cd.hlpArg).1).1 (fn (collectHlpArgs c k.cd.hlpArg).1).2 =
+            (condOKAssign (collectHlpArgs c k.cd.hlpArg).2 k (fn (collectHlpArgs c k.cd.hlpArg).1).1 (fn (collectHlpArgs c k.cd.hlpArg).1).2).pre pl from rfl, nodeCmp_pre]
+
 theorem evalCase_pre (pl : List Event) (c : Ctx) (arg : Bytes) (k : CaseSpec) :
     evalCase (c.pre pl) arg k = ((evalCase c arg k).1.pre pl, (evalCase c arg k).2) := by
   unfold evalCase
